@@ -149,8 +149,8 @@ structure ChainView where
 def validateAccept (env : OpsEnv) (chain : ChainView) (round ts : Nat) (future finalized : Bool)
     (canonRest : Nat) (tx : OpTx) : Decision :=
   if round ≠ 0 then .reject
+  else if !chain.exists_ then .panic   -- nil chain: the first error message dereferences it
   else if future then .reject
-  else if !chain.exists_ then .panic
   else if chain.hasState then .reject
   else match pledgingNode env.hist ts with
     | none => .reject
